@@ -24,12 +24,18 @@ TOL = 1e-9
 OPEN_STATEMENTS = [
     'gate theorems are about the Model matrices (exact, rational points of the unit circle); that cirq.unitary '
     'of the real gate equals the Model matrix is a 1e-9 float comparison (correspondence), not a theorem',
-    'CubicFermionicSimulationGate (general weights: numpy.linalg.eigh), QuarticFermionicSimulationGate._decompose_ '
-    '(numerical matrix square root) and DoubleExcitationGate._decompose_ (pi/8 phases) are covered by the oracle '
-    'exp(-i t G) / decomposition == gate only; no theorem',
+    'CubicFermionicSimulationGate with general weights: proved are generator = JW image of the extracted components and the '
+    'characteristic equation of the 3x3 block (cubic_generator_is_jw, cubic_block_characteristic); the eigenvalues themselves '
+    '(numpy.linalg.eigh, irrational) and hence the unitary are covered by the oracle exp(-i t G) only',
+    'QuarticFermionicSimulationGate._decompose_ (numerical matrix square root of a product of expm) and '
+    'DoubleExcitationGate._decompose_ (Z**(1/8): entries in Q(zeta_16), outside the Gaussian rationals the Model computes with) '
+    'cannot be stated as matrix identities over GQ at rational points; oracle decomposition == gate only',
+    'slater_circuit_structure (adjacent qubits, parallel layers) is proved for descriptions drawn from the C11 schedule; that the real '
+    'givens_decomposition_square output is such a description is checked on generated matrices (correspondence)',
     'bogoliubov_transform / prepare_* / optimal_givens_decomposition / ffft: the conjugation identity and the prepared '
     'states are checked numerically (oracle, <= 5 resp. 8 qubits); the Givens decompositions themselves belong to C11; '
-    'ffft_spec (Cooley-Tukey exponent table) is not proved, only the recursion structure is mirrored',
+    'ffft_spec_partial proves that the Cooley-Tukey index recursion gives the DFT exponent table for every factor list; that each '
+    'emitted gate acts on the single-particle coefficients as the recursion assumes (hence the unitary claim) is NOT proved (oracle)',
     'swap_network: the number of callback calls n(n-1)/2 is implied by swap_network_pair_once + swap_network_calls_adjacent '
     'but not stated as a separate theorem',
 ]
@@ -488,6 +494,9 @@ def gates_stream(ctx, lad):
                 ok, U = safe(st, 'unitary(Cubic)', case, lambda: cirq.unitary(g))
             if not ok:
                 continue
+            if mode == 'general':
+                cmp_later(case, 'Cubic.qubit_generator_matrix (general weights)', np.asarray(g.qubit_generator_matrix),
+                          model('cubicGenerator', [], [to_gq(w) for w in wts]))
             if mode == 'single' and wk != 0:
                 cmp_later(case, 'Cubic(single weight)', U,
                           model('cubicSingle', [rat(p0[0]), rat(p0[1])], [gqj(*u0)], k))
@@ -848,6 +857,46 @@ def glue_stream(ctx):
             ask({'op': 'c14.spinblock', 'rows': n, 'cols': cols, 'offzero': off},
                 lambda r, real_ans=real_ans, case=case: r == real_ans
                 or st.disagree('_is_spin_block_diagonal', case, real_ans, r))
+    # hypothesis of slater_circuit_structure on real outputs: every layer of givens_decomposition_square is drawn from one
+    # iteration of the C11 schedule (Model: slaterSchedulePairs), iterations in increasing order; and the real circuit of
+    # _slater_basis_change has its Ryxxy gates on adjacent qubits, a layer's gates on disjoint pairs
+    for n in range(1, budget(ctx.tier, 7, 10)):
+        for kind, W in slater_matrices(rs, rng, n):
+            case = {'fn': 'givens_decomposition_square / _slater_basis_change', 'n': n, 'kind': kind}
+            st.case(case)
+            st.count('fn:slater-schedule')
+            ok, dec = safe(st, 'givens_decomposition_square', case,
+                           lambda: of.givens_decomposition_square(W.copy())[0])
+            if not ok:
+                continue
+            real_layers = [[[int(o[0]), int(o[1])] for o in layer] for layer in dec]
+
+            def fin(r, real_layers=real_layers, case=case):
+                k = 0
+                for layer in real_layers:
+                    while k < len(r) and not all(p in r[k] for p in layer):
+                        k += 1
+                    if k == len(r):
+                        st.disagree('a layer of givens_decomposition_square is not drawn from the C11 schedule', case,
+                                    real_layers, r)
+                        return
+                    k += 1
+            ask({'op': 'c14.slaterschedule', 'n': n}, fin)
+            qubits = cirq.LineQubit.range(n)
+            pos = {q: i for i, q in enumerate(qubits)}
+            if kind.startswith('spin-block'):
+                continue
+            ok, ops = safe(st, 'bogoliubov_transform', case,
+                           lambda: list(cirq.flatten_op_tree(of.bogoliubov_transform(qubits, W.copy()))))
+            if ok:
+                for o in ops:
+                    if isinstance(o.gate, cirq.PhasedISwapPowGate):
+                        a, b = pos[o.qubits[0]], pos[o.qubits[1]]
+                        if b != a + 1:
+                            st.violate('_slater_basis_change places a Givens rotation on non-adjacent qubits', case,
+                                       {'qubits': [a, b]})
+                    elif o.gate == cirq.X:
+                        st.violate('_slater_basis_change emits an X gate without initial state', case, {})
     # ffft recursion structure
     nmax = budget(ctx.tier, 16, 36)
     for n in range(1, nmax + 1):
@@ -1163,6 +1212,18 @@ def primitives_stream(ctx, lad):
                 check(case, 'conjugation: ffft U a^_k U^-1 = n^-1/2 sum_m e^{-2 pi i km/n} a^_m',
                       maxdiff(U @ lad.get(n, k, 1) @ U.conj().T, sum(F[k, m] * lad.get(n, m, 1) for m in range(n))),
                       1e-8)
+            # the Model's Cooley-Tukey exponent table (ctExp, theorem ffft_spec_partial) vs the single-particle
+            # coefficients of the real circuit:  U a^_k U^-1 |vac> = sum_j C_kj a^_j |vac>
+            table = ctx.driver.one({'op': 'c14.ffftexp', 'n': n})
+            vac = np.zeros(2 ** n, dtype=complex)
+            vac[0] = 1
+            C = np.array([[(U @ lad.get(n, k, 1) @ U.conj().T @ vac)[1 << (n - 1 - j)] for j in range(n)]
+                          for k in range(n)])
+            want = np.array([[np.exp(-2j * np.pi * table[k][j] / n) for j in range(n)] for k in range(n)]) / np.sqrt(n)
+            st.float_comparisons += 1
+            if not maxdiff(C, want) <= 1e-8:
+                st.disagree('ffft single-particle coefficients vs the Model exponent table ctExp', case,
+                            np.round(C, 6).tolist(), table)
     return st
 
 
